@@ -222,7 +222,10 @@ def drive(pid: str, tier: str, seed: int, shards: int | None, keep: bool = False
         "coverage": {
             "evaluations": M["evaluations"] if M else 0,
             "distinct_nontrivial": len(M["case_digests"]) if M else 0,
-            "rule": getattr(mon, "RULE", ""),
+            "rule": getattr(mon, "RULE", "") + " | Plus the standing workload rules of DESIGN.md section 7 (scales, exact-arithmetic coincidences, "
+                    "size ladder across 8/16/32, memory layouts incl. negative strides, one-buffer call histories with the caller's own objects, "
+                    "call forms with numpy scalars / keywords / omitted and falsy optional arguments, aliased arguments, retained results): the "
+                    "per-class case counts are in 'classes', the reached workload markers in 'branch_reach'.",
             "samples": (M["samples"] if M and M["samples"] else ["(no sample recorded)"]),
             "exhaustive": bool(getattr(mon, "EXHAUSTIVE", False)),
             "exhaustive_note": getattr(mon, "EXHAUSTIVE_NOTE", ""),
